@@ -14,7 +14,7 @@
 
 use crate::{
     error::{AdapterError, ModelError},
-    util::parse_csv_line,
+    util::{join_csv_fields, parse_csv_line},
     Adapter, Filter, Model, Result,
 };
 use async_trait::async_trait;
@@ -129,7 +129,12 @@ impl Adapter for StringAdapter {
 
         for (ptype, ast) in ast_map {
             for rule in ast.get_policy() {
-                writeln!(policies, "{}, {}", ptype, rule.join(", "))
+                writeln!(
+                    policies,
+                    "{}, {}",
+                    ptype,
+                    join_csv_fields(rule, ", ")
+                )
                     .map_err(|e| AdapterError(e.into()))?;
             }
         }
@@ -137,7 +142,12 @@ impl Adapter for StringAdapter {
         if let Some(ast_map) = m.get_model().get("g") {
             for (ptype, ast) in ast_map {
                 for rule in ast.get_policy() {
-                    writeln!(policies, "{}, {}", ptype, rule.join(", "))
+                    writeln!(
+                    policies,
+                    "{}, {}",
+                    ptype,
+                    join_csv_fields(rule, ", ")
+                )
                         .map_err(|e| AdapterError(e.into()))?;
                 }
             }
